@@ -14,6 +14,7 @@ import random
 import re
 import shutil
 import subprocess
+import threading
 
 import verif as V
 
@@ -47,7 +48,7 @@ ALL_OPS = ["construct", "copy", "assign", "cast", "rplus", "rminus", "mutate", "
 # histories per (model, shape); chunk = trace lines per TLC process (split at history boundaries)
 TIERS = {
     "quick": dict(per_shape=3, per_model=36, depth=4, chunk=420, extra=False),
-    "thorough": dict(per_shape=50, per_model=400, depth=5, chunk=1500, extra=True),
+    "thorough": dict(per_shape=30, per_model=300, depth=5, chunk=1500, extra=True),
 }
 
 ASSUME = [
@@ -58,6 +59,9 @@ ASSUME = [
     "double scalar only (AnyManifold is double-only; the property's tolerance is stated for double); SubManifold base manifolds are Lie groups / vectors (as in the property), not containers",
     "TLC, the JVM and the BigRat/RFun Java overrides (differentially tested) are trusted; the harness only records",
 ]
+
+
+_LOCK = threading.Lock()
 
 
 def active_models():
@@ -90,8 +94,9 @@ def run_design_models(oc, workdir, depth):
             futs[ex.submit(V.run_tlc, "Manifold", model_cfg(workdir, b, 4), workdir, None, 1, 900)] = b
         for f in cf.as_completed(futs):
             b, r = futs[f], f.result()
-            oc.states += r["distinct"]
-            oc.transitions += r["states"]
+            with _LOCK:
+                oc.states += r["distinct"]
+                oc.transitions += r["states"]
             if b == "none":
                 if r["rc"] != 0 or "No error has been found" not in r["out"]:
                     m = re.search(r"Invariant (\w+) is violated", r["out"])
@@ -112,8 +117,9 @@ def generate_histories(oc, workdir):
     r = V.run_tlc("Manifold", model_cfg(workdir, "none", 4, emit=True), workdir, workers=1, timeout=900)
     if r["rc"] != 0:
         raise V.ToolFailure(f"TLC generator failed (rc={r['rc']}):\n{r['out'][-2000:]}")
-    oc.states += r["distinct"]
-    oc.transitions += r["states"]
+    with _LOCK:
+        oc.states += r["distinct"]
+        oc.transitions += r["states"]
     by_kind = {}
     for ln in r["out"].splitlines():
         if ln.startswith('"H|'):
@@ -200,10 +206,32 @@ def write_prog(path, progs):
             fh.write(f"begin {hid} {sh}\n" + "\n".join(lines) + "\nend\n")
 
 
-def run_harness(exe, prog, out, seed):
-    r = subprocess.run([exe, "--prog", prog, "--out", out, "--seed", str(seed)], capture_output=True, text=True, timeout=900)
-    if r.returncode != 0:
-        raise V.ToolFailure(f"harness {exe} failed rc={r.returncode}: {r.stderr[-1000:]}")
+def run_harness(exe, progs, prog_path, out, seed):
+    """run the programs; a signal inside a step is recorded by the harness as a final {"op":"crash"} event (exit
+    code 4): the run is resumed behind the crashed history (at most 40 times), the trace parts are concatenated"""
+    todo, parts = list(progs), []
+    for attempt in range(41):
+        write_prog(prog_path, todo)
+        part = f"{out}.part{attempt}"
+        r = subprocess.run([exe, "--prog", prog_path, "--out", part, "--seed", str(seed)], capture_output=True, text=True, timeout=900)
+        parts.append(part)
+        if r.returncode == 0:
+            break
+        last = open(part).read().splitlines()[-1:] if os.path.exists(part) else []
+        if r.returncode != 4 or not last or '"op":"crash"' not in last[0]:
+            raise V.ToolFailure(f"harness {exe} failed rc={r.returncode}: {r.stderr[-1000:]}")
+        crashed = int(json.loads(last[0])["step"].split()[0])
+        idx = [i for i, (hid, _, _) in enumerate(todo) if hid == crashed]
+        if not idx:
+            raise V.ToolFailure(f"harness crash record names an unknown history: {last[0]}")
+        todo = todo[idx[0] + 1:]
+        if not todo:
+            break
+    with open(out, "w") as fh:
+        for part in parts:
+            fh.write(open(part).read())
+            os.remove(part)
+    write_prog(prog_path, progs)
 
 
 def split_at_histories(path, chunk):
@@ -258,7 +286,7 @@ def validate(oc, traces, chunk, workdir, timeout=3000):
                 b2["stratum"] = b["clause"]             # one signature per (clause, op, model) in the report
                 if b["clause"].startswith("TOOL."):
                     raise V.ToolFailure(f"harness / program error {b2} in {cp}")
-                hid = ev["h"]
+                hid = ev["h"] if "h" in ev else int(ev["step"].split()[0])
                 shape, prog = meta["progs"][hid]
                 payload = {"family": "manifold", "model": meta["model"], "model_name": name, "seed": meta["seed"],
                            "hid": hid, "shape": shape, "prog": prog, "failing_op": ev["op"],
@@ -274,7 +302,7 @@ def validate(oc, traces, chunk, workdir, timeout=3000):
     for path, meta in traces[:40:13]:
         with open(path) as fh:
             for i, ln in enumerate(fh):
-                if i in (4,):
+                if i in (4,) and '"h":' in ln:
                     ev = json.loads(ln)
                     oc.samples.append({"model": MODELS[meta["model"]][0], "history": meta["progs"][ev["h"]][1],
                                        "event": {k: V.dequad(x) for k, x in ev.items() if k != "obs"}})
@@ -327,9 +355,8 @@ def witnesses(oc, prop, workdir):
             continue
         exe = V.build_one(*harness_job(w["model"]))
         prog = os.path.join(workdir, f"witness_{i}.prog")
-        write_prog(prog, [(w["hid"], w["shape"], w["prog"])])
         out = os.path.join(workdir, f"witness_{i}.ndjson")
-        run_harness(exe, prog, out, w["seed"])
+        run_harness(exe, [(w["hid"], w["shape"], w["prog"])], prog, out, w["seed"])
         traces.append((out, {"model": w["model"], "seed": w["seed"], "progs": {w["hid"]: (w["shape"], w["prog"])}, "witness_of": i}))
     return traces
 
@@ -344,9 +371,8 @@ def check(prop, tier, seed, replay=None):
             rp = json.load(open(replay))
             exe = V.build_one(*harness_job(rp["model"]))
             prog = os.path.join(workdir, "replay.prog")
-            write_prog(prog, [(rp["hid"], rp["shape"], rp["prog"])])
             out = os.path.join(workdir, "replay.ndjson")
-            run_harness(exe, prog, out, rp["seed"])
+            run_harness(exe, [(rp["hid"], rp["shape"], rp["prog"])], prog, out, rp["seed"])
             traces = [(out, {"model": rp["model"], "seed": rp["seed"], "progs": {rp["hid"]: (rp["shape"], rp["prog"])}, "replay_of": replay})]
             oc.known = {"open": [], "fixed": []}   # a replay reports what it sees
             validate(oc, traces, 100000, workdir)
@@ -365,17 +391,18 @@ def check(prop, tier, seed, replay=None):
 
             def run_model(m, exe):
                 prog = os.path.join(workdir, f"m{m}.prog")
-                write_prog(prog, plan[m])
                 out = os.path.join(workdir, f"m{m}.ndjson")
-                run_harness(exe, prog, out, seed)
+                run_harness(exe, plan[m], prog, out, seed)
                 return (out, {"model": m, "seed": seed, "progs": {hid: (sh, lines) for hid, sh, lines in plan[m]}})
             with cf.ThreadPoolExecutor(V.NCPU) as ex:
                 traces = list(ex.map(lambda t: run_model(*t), zip(active_models(), exes)))
             traces += witnesses(oc, prop, workdir)
             validate(oc, traces, cfg["chunk"], workdir)
             missing = required_cells(oc, plan)
-            if missing:
+            if missing and not oc.violations:
                 raise V.ToolFailure(f"vacuity guard: required coverage cells are empty: {missing[:12]}")
+            if missing:     # steps that crashed / were skipped behind a reported violation leave cells empty
+                oc.notes.append(f"coverage cells left empty behind reported violations: {missing[:40]}")
             extra["histories_replayed"] = sum(len(p) for p in plan.values())
             extra["models"] = [MODELS[m][0] for m in active_models()]
             extra["exhaustive_parts"] = ("every subset of fixed dimensions of SubManifold<SO3d> (8), <SE2d> (8), <SE3d> (64), "
